@@ -119,6 +119,63 @@ Theorem C10_unloc_between : forall p n n' sfx m,
 Proof. exact unloc_between. Qed.
 Print Assumptions C10_unloc_between.
 
+(* ---- the chromosome list (chromosome.list.csv) *)
+From Tola Require Model.Stats Proofs.StatsSpec.
+
+(* one line per scaffold of rank 1 (autosome) or 2 (named chromosome), unlocs
+   included, none for anything else; no file when there is no such scaffold *)
+Theorem C10_csv_line_count : forall prefix scs lo cn,
+  length (Model.Stats.chr_csv_lines prefix scs lo cn)
+  = length (filter (fun sc => (sc_rank sc =? 1) || (sc_rank sc =? 2)) scs).
+Proof. exact Proofs.StatsSpec.csv_line_count. Qed.
+Print Assumptions C10_csv_line_count.
+
+Theorem C10_csv_none_iff : forall prefix scs,
+  Model.Stats.chromosome_name_csv prefix scs = None
+  <-> (forall sc, In sc scs -> (sc_rank sc =? 1) || (sc_rank sc =? 2) = false).
+Proof. exact Proofs.StatsSpec.csv_none_iff. Qed.
+Print Assumptions C10_csv_none_iff.
+
+(* every line is name,chromosome,yes|no LF for the rank 1/2 scaffolds in order *)
+Theorem C10_csv_lines_shape : forall prefix scs lo cn,
+  Forall2 Proofs.StatsSpec.is_csv_line_of (filter Proofs.StatsSpec.rank12 scs)
+          (Model.Stats.chr_csv_lines prefix scs lo cn).
+Proof. exact Proofs.StatsSpec.csv_lines_shape. Qed.
+Print Assumptions C10_csv_lines_shape.
+
+(* localised = no exactly for the unlocs: when the assembly lists each
+   chromosome as its main scaffold followed by its unlocs (all carrying the
+   same, non-empty Pretext scaffold name, different from the neighbouring
+   chromosomes'), the file is, chromosome by chromosome, the main scaffold's
+   line with "yes" and one line with "no" and the SAME chromosome name per
+   unloc; the chromosome name is the scaffold name minus the autosome prefix *)
+Theorem C10_csv_groups : forall prefix groups,
+  Forall Proofs.StatsSpec.grp_ok groups -> Proofs.StatsSpec.adjacent_differ groups ->
+  Model.Stats.chr_csv_lines prefix
+    (flat_map (fun g => Proofs.StatsSpec.g_main g :: Proofs.StatsSpec.g_unlocs g) groups) None []
+  = flat_map (fun g =>
+      let chr := replace prefix [] (sc_name (Proofs.StatsSpec.g_main g)) (Some 1%nat) in
+      (sc_name (Proofs.StatsSpec.g_main g) ++ s "," ++ chr ++ s ",yes
+")
+        :: map (fun u => sc_name u ++ s "," ++ chr ++ s ",no
+") (Proofs.StatsSpec.g_unlocs g)) groups.
+Proof. exact Proofs.StatsSpec.csv_groups. Qed.
+Print Assumptions C10_csv_groups.
+
+Theorem C10_chr_of_prefixed : forall prefix x, prefix <> [] ->
+  Proofs.StatsSpec.chr_of prefix (prefix ++ x) = x.
+Proof. exact Proofs.StatsSpec.chr_of_prefixed. Qed.
+Print Assumptions C10_chr_of_prefixed.
+
+(* the recorded known finding, on the model: an unloc whose chromosome has no
+   main scaffold in the assembly is listed as localised *)
+Theorem C10_csv_orphan_unloc_refuted :
+  Model.Stats.chr_csv_lines (s "SUPER_") [Proofs.StatsSpec.mk_sc "SUPER_4_unloc_1" 2 "Scaffold_4"] None []
+  = [s "SUPER_4_unloc_1,4_unloc_1,yes
+"].
+Proof. exact Proofs.StatsSpec.csv_orphan_unloc. Qed.
+Print Assumptions C10_csv_orphan_unloc_refuted.
+
 (* non-vacuity (Proofs/Naming.v, by computation): Scaffold_1 (100 bp),
    Scaffold_2 (500 bp), Scaffold_2_unloc_1 (50 bp) become SUPER_2, SUPER_1,
    SUPER_1_unloc_1 *)
